@@ -6,6 +6,7 @@ import (
 	"math/rand"
 	"os"
 	"path/filepath"
+	"regexp"
 	"runtime"
 	"strings"
 	"sync"
@@ -102,4 +103,20 @@ func ghostSortAt(st *State, init *SExpr) Sort {
 		}
 	}
 	return ghostSortOf(init)
+}
+
+var (
+	reCallOrd = regexp.MustCompile(`#call\d+\.`)
+	reLineNum = regexp.MustCompile(`\.(\d+)(/\d+)?$`)
+	reSafe    = regexp.MustCompile(`#(safe\.[a-z]+|frame|nopanic|safe\.callpanic\.[^#]*?)\.\d+`)
+)
+
+// normObName removes call ordinals and source line numbers from an obligation name (they shift when code is edited);
+// the split-conjunct suffix /k is dropped with them.
+func normObName(n string) string {
+	n = reCallOrd.ReplaceAllString(n, "#call.")
+	if reSafe.MatchString(n) {
+		n = reLineNum.ReplaceAllString(n, "")
+	}
+	return n
 }
